@@ -2,7 +2,6 @@ package blob
 
 import (
 	"archive/tar"
-	"errors"
 	"fmt"
 	"io"
 	"path/filepath"
@@ -126,8 +125,8 @@ func (tr *BTarReader) ReadFile(filename string) (*tar.Header, io.Reader, error) 
 	for {
 		th, err := rdr.Next()
 		if err != nil {
-			// break on eof, everything else is an error
-			if errors.Is(err, io.EOF) {
+			// break on eof, everything else is an error (including a failed verification that wraps io.EOF)
+			if err == io.EOF {
 				break
 			}
 			return nil, nil, err
